@@ -6,6 +6,7 @@ import (
 	"fmt"
 	"math/rand"
 	"os"
+	"reflect"
 	"regexp"
 	"runtime"
 	"sort"
@@ -53,15 +54,17 @@ func (a *Abs) MarshalJSON() ([]byte, error) {
 		return json.Marshal(map[string]any{"t": a.T, "k": k, "v": it})
 	case "rx":
 		return json.Marshal(map[string]any{"t": a.T, "p": a.P})
+	case "biglist":
+		return json.Marshal(map[string]any{"t": a.T, "n": a.N, "at": a.At, "v": a.Val, "fill": a.Fill})
 	}
 	return json.Marshal(map[string]any{"t": a.T})
 }
 
 type c12case struct {
-	Ast  *AST  `json:"ast"`
-	Elem *Abs  `json:"elem"`
-	Root *Abs  `json:"root"`
-	Pr   bool  `json:"pr,omitempty"` // also run the script re-parsed from its own String()
+	Ast  *AST   `json:"ast"`
+	Elem *Abs   `json:"elem"`
+	Root *Abs   `json:"root"`
+	Pr   bool   `json:"pr,omitempty"` // also run the script re-parsed from its own String()
 	Src  string `json:"src,omitempty"`
 	Cid  int    `json:"cid,omitempty"` // nest: all sub-expressions of one random tree share the id
 	Sz   int    `json:"sz,omitempty"`  // nest: number of operator nodes
@@ -76,6 +79,7 @@ type group struct {
 }
 
 type c12event struct {
+	Flv  string  `json:"flv,omitempty"` // Go representation of the container members k / j (reflected operands)
 	Ast  *AST    `json:"ast"`
 	Elem *Abs    `json:"elem"`
 	Root *Abs    `json:"root"`
@@ -179,6 +183,143 @@ func runRoutes(ast *AST, elem any, rootMembers map[string]any, printed bool) []r
 	return rs
 }
 
+// reflected operands: the container members k / j of the element as Go structs, fixed-size arrays, typed slices and maps,
+// pointers. The abstract value (what TLC sees) is unchanged: a struct is an object, an array a list.
+type sE struct{}
+type sA struct {
+	A any `json:"a"`
+}
+type sAB struct {
+	A any `json:"a"`
+	B any `json:"b"`
+}
+
+func flavoured(a *Abs, flv string) (any, bool) {
+	v := a.Simple()
+	switch a.T {
+	case "obj":
+		m := v.(map[string]any)
+		var st any
+		switch {
+		case len(m) == 0:
+			st = sE{}
+		case len(m) == 1 && len(a.K[0]) == 1 && a.K[0][0] == 'a':
+			st = sA{A: m["a"]}
+		case len(m) == 2 && bstr(a.K[0]) == "a" && bstr(a.K[1]) == "b":
+			st = sAB{A: m["a"], B: m["b"]}
+		default:
+			return nil, false
+		}
+		if flv == "A" {
+			return st, true
+		}
+		switch t := st.(type) { // "B": pointers
+		case sE:
+			return &t, true
+		case sA:
+			return &t, true
+		case sAB:
+			return &t, true
+		}
+	case "arr":
+		l := v.([]any)
+		if flv == "A" { // [n]any
+			arr := reflect.New(reflect.ArrayOf(len(l), reflect.TypeOf((*any)(nil)).Elem())).Elem()
+			for i, e := range l {
+				if e != nil {
+					arr.Index(i).Set(reflect.ValueOf(e))
+				}
+			}
+			return arr.Interface(), true
+		}
+		allInt, allStr := 0 < len(l), 0 < len(l)
+		for _, e := range l {
+			if _, ok := e.(int64); !ok {
+				allInt = false
+			}
+			if _, ok := e.(string); !ok {
+				allStr = false
+			}
+		}
+		switch {
+		case allInt:
+			r := make([]int64, len(l))
+			for i, e := range l {
+				r[i] = e.(int64)
+			}
+			return r, true
+		case allStr:
+			r := make([]string, len(l))
+			for i, e := range l {
+				r[i] = e.(string)
+			}
+			return r, true
+		default:
+			type anyList []any // a named slice type
+			return anyList(l), true
+		}
+	}
+	return nil, false
+}
+
+// runFlavoured: the same case with the container members of the element in reflected representations ("A": structs and
+// fixed-size arrays, "B": pointers to structs and typed slices); plain-data routes only.
+func runFlavoured(c *c12case) []*c12event {
+	if c.Elem.T != "obj" || c.Pr {
+		return nil
+	}
+	var evs []*c12event
+	for _, flv := range []string{"A", "B"} {
+		elem := map[string]any{}
+		any1 := false
+		for i, k := range c.Elem.K {
+			key := bstr(k)
+			if fv, ok := flavoured(c.Elem.Items[i], flv); ok && (key == "k" || key == "j") {
+				elem[key] = fv
+				any1 = true
+			} else {
+				elem[key] = c.Elem.Items[i].Simple()
+			}
+		}
+		if !any1 {
+			return nil
+		}
+		rootMembers, _ := c.Root.Simple().(map[string]any)
+		ast := c.Ast
+		doc := map[string]any{"l": []any{elem}, "m": map[string]any{"x": elem}}
+		for k, v := range rootMembers {
+			doc[k] = v
+		}
+		rs := []route{
+			{"Match.built", "m", try(func() (bool, error) { return ast.Build().Script().Match(elem), nil })},
+			{"Get.built", "g", try(func() (bool, error) { return len(jp.R().C("l").F(ast.Build()).Get(doc)) == 1, nil })},
+			{"Get.map", "g", try(func() (bool, error) { return len(jp.R().C("m").F(ast.Build()).Get(doc)) == 1, nil })},
+			{"First.built", "g", try(func() (bool, error) {
+				_, ok := jp.R().C("l").F(ast.Build()).FirstFound(doc)
+				return ok, nil
+			})},
+			{"Has.built", "g", try(func() (bool, error) { return jp.R().C("l").F(ast.Build()).Has(doc), nil })},
+			{"Eval.built", "n", try(func() (bool, error) {
+				got, _ := ast.Build().Filter().Eval([]any{}, []any{elem}).([]any)
+				return len(got) == 1, nil
+			})},
+		}
+		ev := &c12event{Flv: flv, Ast: c.Ast, Elem: c.Elem, Root: c.Root, Text: c.Ast.Text(), Src: c.Src}
+		idx := map[string]int{}
+		for _, r := range rs {
+			key := r.rt + "|" + strconv.Itoa(r.o.r) + "|" + r.o.m
+			if j, ok := idx[key]; ok {
+				ev.O[j].As = append(ev.O[j].As, r.name+"/"+flv)
+			} else {
+				idx[key] = len(ev.O)
+				ev.O = append(ev.O, group{As: []string{r.name + "/" + flv}, Rt: r.rt, R: r.o.r, D: -1, M: r.o.m})
+			}
+		}
+		evs = append(evs, ev)
+	}
+	return evs
+}
+
 func runC12(c *c12case) *c12event {
 	elem := c.Elem.Simple()
 	rootMembers, _ := c.Root.Simple().(map[string]any)
@@ -241,6 +382,14 @@ func execC12() {
 				if err != nil {
 					fmt.Fprintf(os.Stderr, "marshal: %v\n", err)
 					os.Exit(2)
+				}
+				for _, fe := range runFlavoured(&c) {
+					fb, err := json.Marshal(fe)
+					if err != nil {
+						fmt.Fprintf(os.Stderr, "marshal: %v\n", err)
+						os.Exit(2)
+					}
+					b = append(append(b, '\n'), fb...)
 				}
 				out[i] = b
 			}
